@@ -45,6 +45,29 @@ theorem scalar_imaginary_only (c : PtConsts K) (x h : K) (d : DiffName)
     (hd : d = .complex ∨ d = .multicomplex ∨ d = .multicomplex2) : ∀ p ∈ pointsScalar c d x h, p.re = x := by
   rcases hd with rfl | rfl | rfl <;> intro p hp <;> simp [pointsScalar] at hp <;> subst hp <;> rfl
 
+/-- which configurations get an imaginary-only rule (on the generated name dispatch): method `complex` with a first derivative
+of requested order 1, 2 or 3 (effective order 2) selects the plain rule `_complex`, and `multicomplex` (n = 1, 2) selects
+`_multicomplex` / `_multicomplex2` — so that, with `scalar_imaginary_only`, the real part of every argument is exactly `x`. -/
+theorem imaginary_only_rule_selected (c : PtConsts K) (x h : K) (n order : ℕ) :
+    ((n = 1 ∧ order < 4) → ∃ d, diffName ⟨n, .complex, order⟩ = some d ∧ ∀ p ∈ pointsScalar c d x h, p.re = x) ∧
+    ((n = 1 ∨ n = 2) → ∃ d, diffName ⟨n, .multicomplex, order⟩ = some d ∧ ∀ p ∈ pointsScalar c d x h, p.re = x) := by
+  refine ⟨?_, ?_⟩
+  · rintro ⟨rfl, ho⟩
+    refine ⟨.complex, ?_, scalar_imaginary_only c x h .complex (Or.inl rfl)⟩
+    have h4 : ¬ (4 ≤ order) := by omega
+    simp [diffName, Gen.LogRule._get_middle_name, Gen.LogRule._get_last_name, Gen.LogRule._even_derivative, Gen.LogRule._odd_derivative,
+      Gen.LogRule._complex_high_order, Gen.LogRule._multicomplex_middle_name, Gen.LogRule._derivative_mod_four_is_zero,
+      Gen.LogRule._derivative_mod_four_is_three, h4]
+  · rintro (rfl | rfl)
+    · refine ⟨.multicomplex, ?_, scalar_imaginary_only c x h .multicomplex (Or.inr (Or.inl rfl))⟩
+      simp [diffName, Gen.LogRule._get_middle_name, Gen.LogRule._get_last_name, Gen.LogRule._even_derivative, Gen.LogRule._odd_derivative,
+        Gen.LogRule._complex_high_order, Gen.LogRule._multicomplex_middle_name, Gen.LogRule._derivative_mod_four_is_zero,
+        Gen.LogRule._derivative_mod_four_is_three]
+    · refine ⟨.multicomplex2, ?_, scalar_imaginary_only c x h .multicomplex2 (Or.inr (Or.inr rfl))⟩
+      simp [diffName, Gen.LogRule._get_middle_name, Gen.LogRule._get_last_name, Gen.LogRule._even_derivative, Gen.LogRule._odd_derivative,
+        Gen.LogRule._complex_high_order, Gen.LogRule._multicomplex_middle_name, Gen.LogRule._derivative_mod_four_is_zero,
+        Gen.LogRule._derivative_mod_four_is_three]
+
 /-- every real-step argument is within one step of `x` -/
 theorem scalar_near (c : PtConsts K) (x h : K) (hh : 0 ≤ h) (d : DiffName)
     (hd : d = .central ∨ d = .central_even ∨ d = .forward ∨ d = .backward) :
